@@ -223,6 +223,76 @@ fn run_case(c: &Case, rec: &mut CaseRec) -> Result<(), String> {
     Ok(())
 }
 
+/// A server that is merely SLOW: it goes silent for `pause_ms` in the middle of the first run's body and then carries on.
+/// Slowness is not a transfer failure: the requests must still be exactly the runs (the reader is given a retry budget, so
+/// that a reader which mistakes the pause for a failure shows it as an extra request rather than as an error).
+#[derive(Clone, Debug, Serialize, Deserialize)]
+pub struct SlowCase {
+    pub arch: ArchCase,
+    pub mask: Vec<bool>,
+    pub pause_ms: u32,
+}
+
+fn run_slow(c: &SlowCase, rec: &mut CaseRec) -> Result<(), String> {
+    let Some(b) = build(&c.arch)? else {
+        rec.excluded = Some("collision_guard".into());
+        return Ok(());
+    };
+    let sel: Vec<(u64, usize)> = b.descr.iter().enumerate().filter(|(i, _)| c.mask.get(*i).copied().unwrap_or(false)).map(|(_, d)| (d.0, d.1)).collect();
+    let want = expected_runs(&sel);
+    if want.is_empty() {
+        rec.excluded = Some("empty_subset".into());
+        return Ok(());
+    }
+    let first_len = (want[0].1 - want[0].0 + 1) as usize;
+    let script = http::Script {
+        rules: vec![(http::When::NthData(0), http::Action { pause_after: Some((first_len / 2, c.pause_ms)), ..Default::default() })],
+        data_from: b.header_len as u64,
+        max_requests: 1 << 20,
+    };
+    let srv = http::Server::start(b.bytes.clone(), script);
+    let url: reqwest::Url = srv.url().parse().unwrap();
+    let hash_len = c.arch.cfg.hash_len;
+    crate::util::block_on(async {
+        let reader = HttpReader::from_url(url).retries(2).retry_delay(std::time::Duration::from_secs(0));
+        let mut archive = Archive::try_init(reader).await.map_err(|e| format!("try_init over HTTP failed: {}", e))?;
+        let before = srv.requests().len();
+        let mut idx = ChunkIndex::new_empty(hash_len);
+        for (i, d) in b.descr.iter().enumerate() {
+            if c.mask.get(i).copied().unwrap_or(false) {
+                idx.add_chunk(HashSum::from(&d.2[..]), d.3 as usize, &[i as u64 * 70_000]);
+            }
+        }
+        let mut n = 0usize;
+        {
+            let mut stream = archive.chunk_stream(&idx);
+            while let Some(item) = stream.next().await {
+                item.map_err(|e| format!("chunk_stream item {} failed although the server only paused for {} ms: {}", n, c.pause_ms, e))?;
+                n += 1;
+            }
+        }
+        if n != sel.len() {
+            return Err(format!("stream yielded {} items for {} selected descriptors", n, sel.len()));
+        }
+        let got: Vec<(u64, u64)> = srv.requests()[before..].iter().map(|r| r.range.unwrap_or((u64::MAX, 0))).collect();
+        if got != want {
+            return Err(format!("requests: a server pausing for {} ms inside the first run got {:?}, expected exactly the runs {:?}", c.pause_ms, got, want));
+        }
+        Ok(())
+    })?;
+    rec.nontrivial = true;
+    rec.level = Some("L1");
+    rec.class("server_pauses_mid_body_then_carries_on");
+    Ok(())
+}
+
+fn slow_strategy() -> impl Strategy<Value = SlowCase> {
+    (small_archive_strategy(8), prop::collection::vec(prop::bool::weighted(0.7), 8), 11_500u32..14_000).prop_map(|(arch, mut mask, pause_ms)| {
+        mask[0] = true;
+        SlowCase { arch, mask, pause_ms }
+    })
+}
+
 fn small_archive_strategy(max_chunks: usize) -> impl Strategy<Value = ArchCase> {
     (
         1usize..=max_chunks,
@@ -303,7 +373,7 @@ impl Prop for C07 {
     }
     fn meta(&self, _tier: Tier) -> Meta {
         Meta {
-            rule: "variant 'subsets': archives with <= 10 descriptors (bitar's writer, or the independent encoder with permuted / padded stored chunks so that dictionary order != file order) x EVERY subset of descriptors, fetched through Archive::chunk_stream(&ChunkIndex) over HttpReader from the scripted server; 'masks': archives with up to 60 descriptors x 1-5 random subsets fetched one after the other through ONE Archive / HttpReader, half of the cases dropping some of the streams after a few items (what an abandoned fetch leaves in the reader must not change the next fetch's requests); 'l2': `bita clone URL` with seeds / prior output (subset induced by R3). No transfer faults. Oracle: filter descriptors (dictionary order) by the subset, split where end_i != offset_{i+1}; the server's chunk-data Range log must equal, in order, bytes=first.offset-(last.end-1) of each run. Non-trivial = >= 2 runs and at least one run of >= 2 chunks; distinct by Blake2 of (archive case, subset).".into(),
+            rule: "variant 'subsets': archives with <= 10 descriptors (bitar's writer, or the independent encoder with permuted / padded stored chunks so that dictionary order != file order) x EVERY subset of descriptors, fetched through Archive::chunk_stream(&ChunkIndex) over HttpReader from the scripted server; 'masks': archives with up to 60 descriptors x 1-5 random subsets fetched one after the other through ONE Archive / HttpReader, half of the cases dropping some of the streams after a few items (what an abandoned fetch leaves in the reader must not change the next fetch's requests); 'slow': a server that goes silent for 11.5-14 s in the middle of the first run's body and then carries on (slowness is not a transfer failure); 'l2': `bita clone URL` with seeds / prior output (subset induced by R3). No transfer faults. Oracle: filter descriptors (dictionary order) by the subset, split where end_i != offset_{i+1}; the server's chunk-data Range log must equal, in order, bytes=first.offset-(last.end-1) of each run. Non-trivial = >= 2 runs and at least one run of >= 2 chunks; distinct by Blake2 of (archive case, subset).".into(),
             assumptions: vec!["plain HTTP/1.1 on loopback, one connection per request (Connection: close)".into()],
             ..Meta::default()
         }
@@ -358,6 +428,8 @@ impl Prop for C07 {
             cx.set_exhaustive("all_subsets_of_descriptors_of_archives_with_le_10_descriptors", count);
         }
         cx.run_prop("masks", t.pick(1200, 30_000), random_mask_case_strategy(), run_case);
+        // 16 cases side by side, one per worker: ~14 s of wall clock in the quick tier
+        cx.run_prop("slow", t.pick(16, 64), slow_strategy(), run_slow);
         let retries = TRANSPORT_RETRIES.with(|c| c.get());
         if retries > 0 {
             cx.count_class("harness_transport_retry", retries);
@@ -369,6 +441,7 @@ impl Prop for C07 {
         let mut rec = CaseRec::default();
         match variant {
             "l2" => l2_case(&serde_json::from_value(case.clone()).map_err(|e| e.to_string())?, &mut rec),
+            "slow" => run_slow(&serde_json::from_value(case.clone()).map_err(|e| e.to_string())?, &mut rec),
             _ => run_case(&serde_json::from_value(case.clone()).map_err(|e| e.to_string())?, &mut rec),
         }
     }
